@@ -83,6 +83,7 @@ type loopInfo struct {
 	blocks  map[*ssa.BasicBlock]bool
 	backs   []*ssa.BasicBlock
 	mod     KeySet
+	directMod KeySet // keys written by stores of the loop body itself (not only by callees)
 	modLocals map[*ssa.Alloc]bool
 	allocs  bool
 	// saved at header for preserve obligations
@@ -161,6 +162,8 @@ type Enc struct {
 	failed string
 	lockCount int
 	usesLocks bool
+	unbalancedCallee bool
+	directStores map[string]bool
 	pureDepth   int
 	atCount     map[string]int
 	inlineDepth int
@@ -215,6 +218,7 @@ func (e *Enc) reset() {
 	e.implDecl = map[string]bool{}
 	e.invObjs = nil
 	e.atCount = map[string]int{}
+	e.directStores = map[string]bool{}
 	e.lockCount = 0
 	e.inlineDepth, e.inlineSeq, e.inlineUsed, e.prefix = 0, 0, 0, ""
 }
@@ -631,7 +635,7 @@ func (e *Enc) obligeNamed(name, kind, detail string, pos token.Pos, goal Term, p
 	// preconditions, invariants); pure proof goals (frames, effects, locks, postconditions) are not assumed,
 	// so that one failing goal does not make the goals after it vacuous.
 	switch kind {
-	case "frame", "effect", "lock", "guard", "post", "typeinv", "typeinv-new", "cand", "monotone", "writers", "at", "callers", "flows", "opaque", "contract-applies", "pure", "variant-cand":
+	case "frame", "effect", "lock", "guard", "post", "typeinv", "typeinv-new", "cand", "monotone", "writers", "at", "callers", "flows", "opaque", "contract-applies", "pure", "variant-cand", "preserved":
 	default:
 		e.assume(goal)
 	}
@@ -673,7 +677,7 @@ func (e *Enc) analyzeCFG() {
 			if isBack(b, s) {
 				li := e.loops[s]
 				if li == nil {
-					li = &loopInfo{header: s, blocks: map[*ssa.BasicBlock]bool{s: true}, mod: KeySet{}, modLocals: map[*ssa.Alloc]bool{}}
+					li = &loopInfo{header: s, blocks: map[*ssa.BasicBlock]bool{s: true}, mod: KeySet{}, directMod: KeySet{}, modLocals: map[*ssa.Alloc]bool{}}
 					e.loops[s] = li
 				}
 				li.backs = append(li.backs, b)
@@ -743,6 +747,7 @@ func (e *Enc) instrMod(in ssa.Instruction, li *loopInfo) {
 		}
 		for _, k := range e.p.storeKeys(x.Addr) {
 			li.mod.Add(k)
+			li.directMod.Add(k)
 		}
 	case *ssa.MapUpdate:
 		li.mod.Add(e.p.mapKey(x.Map.Type().Underlying().(*types.Map)))
